@@ -1581,11 +1581,10 @@ def _collect_pq_statistics(
 
     # Collect statistics using layer information
     fs = expr._io_func.fs
-    parts = [
-        part
-        for i, part in enumerate(expr._plan["parts"])
-        if not expr._filtered or i in expr._partitions
-    ]
+    parts = list(expr._plan["parts"])
+    if expr._filtered:
+        # by position: a selection may repeat or reorder partitions
+        parts = [parts[i] for i in expr._partitions]
 
     # Execute with delayed for large and remote datasets
     parallel = int(False if _is_local_fs(fs) else 16)
